@@ -282,7 +282,11 @@ func mergeCryptoDynMap(ab *cmdsPair, name, prefix string) {
 func mergeCryptoCommon(ab *cmdsPair, al, bl []*cmd) []*cmd {
 	key := func(c *cmd) [2]string {
 		tokens := strings.Split(c.parsed, " ")
-		return [2]string(tokens[4:6])
+		// Short commands like 'crypto map $NAME $SEQ ipsec-isakmp'
+		// have less than 6 tokens.
+		var k [2]string
+		copy(k[:], tokens[min(4, len(tokens)):])
+		return k
 	}
 	var add []*cmd
 	m := make(map[[2]string]*cmd)
